@@ -27,7 +27,8 @@ RULE = ("trees: random task trees of depth <= 3 and fan-out <= 3 (<= 40 tasks), 
         "to_thread.run_sync of ONE shared function, all tasks carrying one name so that worker-thread names are equal) or in "
         "the innermost nursery's __aexit__ (0..2 already closed nurseries inside), nursery bodies ending in plain statement / "
         "try-except / try-finally / `if c: return K` (c false and c true) / a nested with; both recurse_child_tasks values; "
-        "thorough adds a systematic family (context layouts x end shapes x block modes x child counts). chains: every valid "
+        "some tasks with 95..150 nested awaits between two frames (above a nursery with children) and ping-pong chains of "
+        "depth 21..24 (chains longer than the runaway-unwrap guard's constant); thorough adds a systematic family (context layouts x end shapes x block modes x child counts). chains: every valid "
         "hop string over T (to_thread.run_sync), H (from_thread.run re-entering the host task), S (from_thread.run with "
         "trio_token, system task), R (from_thread.run_sync as the last hop, the sync function calling extract from inside the "
         "host task) up to length M (quick 5, thorough 8) from a task or a foreign thread, parked and observed from "
@@ -97,10 +98,42 @@ def rand_task(rng, depth, maxdepth, fan, budget):
     return task
 
 
-def rand_tree(rng):
+def pad_some(rng, task, depth=0):
+    """give some tasks of the tree a long await chain (more links than the runaway-unwrap guard's
+    constant) between two of their frames / above their parking place"""
+    if rng.random() < (0.5 if depth == 0 else 0.15):
+        task["pad"] = rng.choice([97, 99, 100, 101, 120, 150])
+    for fr in task["frames"]:
+        for c in fr["ctxs"]:
+            for k in c.get("kids", []):
+                pad_some(rng, k, depth + 1)
+
+
+def deep_trees():
+    """a nursery with children BELOW more than 100 nested awaits, in the root and in a child"""
+    for pad in (95, 98, 99, 100, 101, 120, 150):
+        kid = {"frames": [{"ctxs": []}, {"ctxs": [{"t": "n", "end": "plain", "kids": [leaf("event")]}]}],
+               "block": "aexit", "how": "sleep", "closed": 0, "pad": pad}
+        yield {"kind": "tree", "rc": True, "root": {
+            "frames": [{"ctxs": []}, {"ctxs": [{"t": "n", "end": "tryfin", "kids": [leaf(), kid]}]}],
+            "block": "body", "how": "event", "closed": 0, "pad": pad}}
+    yield {"kind": "tree", "rc": True, "root": dict(leaf("sleep"), pad=130)}
+
+
+def deep_chains():
+    """ping-pong of depth >= 20 (each level adds five coroutines to the host task's chain)"""
+    for hops, shared in (("TH" * 21, False), ("TH" * 24, True), ("TH" * 22 + "T", False)):
+        n = len(hops) + 1
+        yield {"kind": "chain", "rc": True, "start": "task", "hops": hops, "end": "park",
+               "nurs": [0] * (n - 1) + [0 if shared else 1], "deep": [0] * n, **({"shared": True} if shared else {})}
+
+
+def rand_tree(rng, p_deep=0.03):
     maxdepth = rng.choice([1, 2, 2, 3])
     fan = rng.choice([1, 2, 3])
     root = rand_task(rng, 0, maxdepth, fan, [40])
+    if rng.random() < p_deep:
+        pad_some(rng, root)
     return {"kind": "tree", "rc": rng.random() < 0.75, "root": root}
 
 
@@ -253,6 +286,8 @@ def specials():
 def make_inputs(tier, seed):
     rng = random.Random(seed * 7919 + 14)
     yield from specials()
+    yield from deep_trees()
+    yield from deep_chains()
     if tier == "quick":
         for _ in range(1200):
             yield rand_tree(rng)
@@ -260,7 +295,7 @@ def make_inputs(tier, seed):
         yield from chains(rng, 5, 3)
     else:
         for _ in range(15000):
-            yield rand_tree(rng)
+            yield rand_tree(rng, 0.08)
         yield from systematic()
         yield from chains(rng, 8, 4)
 
@@ -362,8 +397,9 @@ def coq_case(desc, obs):
     else:
         root = "(RThread %s (fl %s))" % (cnat(w["thread"]), clist([c_frame(f) for f in w["frames"]]))
     iso = bool(desc["rc"]) and "task" in w and (desc["kind"] == "tree" or "S" not in desc["hops"])
-    return "(Build_tcase %s %s %s %s %s %s)" % (root, cbool(desc["rc"]), c_stack(obs["stack"]),
-                                                c_table(obs["nurs"]), c_table(obs["kids"]), cbool(iso))
+    return "(Build_tcase %s %s %s %s %s %s %s)" % (root, cbool(desc["rc"]), c_stack(obs["stack"]),
+                                                c_table(obs["nurs"]), c_table(obs["kids"]), cbool(iso),
+                                                   cbool(obs.get("clean", False)))
 
 
 def direct_oracle(desc, obs):
@@ -394,10 +430,12 @@ def classify(desc, obs):
     if desc["kind"] == "tree":
         n, aexit, ends = _count(desc["root"])
         labs.append("tasks=%s" % ("1" if n == 1 else "2-5" if n <= 5 else "6-15" if n <= 15 else "16+"))
+        if '"pad"' in __import__("json").dumps(desc):
+            labs.append("await chain > 95 links")
         labs.append("parked_in_aexit=%d" % min(aexit, 3))
         labs += ["end:" + e for e in sorted(ends)]
     else:
-        labs.append("hops=%d" % len(desc["hops"]))
+        labs.append("hops=%s" % (len(desc["hops"]) if len(desc["hops"]) < 10 else "40+"))
         labs.append("start:" + desc["start"])
         labs.append("end:" + desc["end"])
         if desc.get("shared"):
